@@ -22,10 +22,10 @@ TIMEOUT = {"quick": 1200, "thorough": 7200}
 def generate(tier, seed):
     cases = [{"kind": "shipped-pairs", "seed": "%d:shipped" % seed, "cost": 5},
              {"kind": "shipped-scalars", "seed": "%d:scalars" % seed, "cost": 2}]
-    n = 600 if tier == "quick" else 6000
+    n = 600 if tier == "quick" else 30000
     for k in range(n):
         cases.append({"kind": "generated", "seed": "%d:g:%d" % (seed, k), "cost": 1})
-    n = 12 if tier == "quick" else 120
+    n = 12 if tier == "quick" else 600
     for k in range(n):
         cases.append({"kind": "lookups", "seed": "%d:l:%d" % (seed, k), "cost": 40})
     return cases
